@@ -11,6 +11,7 @@ CONSTANTS
   MaxSegs = 0
   NVals = {}
   KVals = {}
+  SVals = {0}
   Inherit = FALSE
   Layouts = {}
   Orders = {}
